@@ -3,11 +3,13 @@ import ImathVerif.Props.C12
 # C12 — full-strength recomposition of the 2-D `sansScaling` / `removeScaling (Matrix33)`
 
 "sansScaling/removeScaling return shear*rotation*translation" (property C12), stated at FULL strength for the
-functions regenerated from the current ImathMatrixAlgo.h.  On a tree whose 2-D `sansScaling` recomposes with
-`M.translate (tran); M.rotate (rot); M.shear (shr)` these theorems do NOT elaborate: `Matrix33::rotate`
-post-multiplies, which yields shear * translation * rotation (Props/C12Defect.lean proves that this is what the
-code computes and refutes the statement on the 3-4-5 witness; tools/props/c12.py replays it on the real code).
-What holds regardless is `M33_sansScaling_recompose_partial` in Props/C12.lean.
+functions regenerated from the current ImathMatrixAlgo.h.  These theorems did NOT hold before /repo commit ec5bcdd:
+the functions recomposed with `M.translate (tran); M.rotate (rot); M.shear (shr)` and `Matrix33::rotate`
+post-multiplies, which gave shear * translation * rotation — on the witness `W345` (rotation by the 3-4-5 angle,
+translation (3,4), unit scale, no shear) the translation row came back as (0,5).  If that recomposition returns,
+they stop elaborating and tools/props/c12.py reports `theorem:M33_sansScaling_recompose` /
+`theorem:M33_removeScaling_recompose` with the witness replayed on the real code.  The last two theorems pin the
+witness: the functions now return it unchanged, translation row (3,4).
 -/
 namespace ImathVerif.C12
 open ImathVerif ImathVerif.SHRT Matrix
@@ -51,5 +53,36 @@ theorem M33_removeScaling_recompose {tmin tmax : α} {sqrt sin cos : α → α} 
     scaleH2 r.scl * (Gen.M33.removeScaling tmin tmax sqrt sin cos atan2 m).2.toMat = m.toMat := by
   rw [M33_removeScaling, he]
   exact ⟨rfl, M33_sansScaling_recompose hs ht ha he⟩
+
+/-- the former counterexample: `sansScaling` of the 3-4-5 rotation with translation (3, 4) (unit scale, zero shear)
+is that matrix itself — in particular its translation row is (3, 4), not the rotated (0, 5) -/
+theorem M33_sansScaling_witness {tmin tmax : α} {sqrt sin cos : α → α} {atan2 : α → α → α}
+    (hs : SqrtSpec sqrt) (ht : TrigSpec sin cos atan2) (htm : 1 < tmax) :
+    (Gen.M33.sansScaling tmin tmax sqrt sin cos atan2 W345).toMat = (W345 : M33 α).toMat ∧
+    (Gen.M33.sansScaling tmin tmax sqrt sin cos atan2 W345).x20 = 3 ∧
+    (Gen.M33.sansScaling tmin tmax sqrt sin cos atan2 W345).x21 = 4 := by
+  have he := ear33_W345 htm (V2_length_spec (tmin := tmin) hs)
+  have h := (M33_sansScaling_recompose (sin := sin) (cos := cos) (atan2 := atan2) hs ht ⟨rfl, rfl, rfl⟩ he).2
+  have e : scaleH2 (⟨1, 1⟩ : V2 α) = 1 := by
+    ext i j; fin_cases i <;> fin_cases j <;> simp [scaleH2]
+  simp only [e, Matrix.one_mul] at h
+  refine ⟨h, ?_, ?_⟩
+  · have := congrFun (congrFun h 2) 0
+    simpa [M33.toMat, W345] using this
+  · have := congrFun (congrFun h 2) 1
+    simpa [M33.toMat, W345] using this
+
+theorem M33_removeScaling_witness {tmin tmax : α} {sqrt sin cos : α → α} {atan2 : α → α → α}
+    (hs : SqrtSpec sqrt) (ht : TrigSpec sin cos atan2) (htm : 1 < tmax) :
+    (Gen.M33.removeScaling tmin tmax sqrt sin cos atan2 W345).1 = true ∧
+    (Gen.M33.removeScaling tmin tmax sqrt sin cos atan2 W345).2.x20 = 3 ∧
+    (Gen.M33.removeScaling tmin tmax sqrt sin cos atan2 W345).2.x21 = 4 := by
+  rw [M33_removeScaling, ear33_W345 htm (V2_length_spec (tmin := tmin) hs)]
+  exact ⟨rfl, (M33_sansScaling_witness hs ht htm).2⟩
+
+/-- over ℝ with the real square root, sine, cosine and `atan2 y x = arg (x + iy)` -/
+example : (Gen.M33.sansScaling (1 / 1024 : ℝ) 2 Real.sqrt Real.sin Real.cos (fun y x => Complex.arg ⟨x, y⟩) W345).x20 = 3 ∧
+    (Gen.M33.sansScaling (1 / 1024 : ℝ) 2 Real.sqrt Real.sin Real.cos (fun y x => Complex.arg ⟨x, y⟩) W345).x21 = 4 :=
+  (M33_sansScaling_witness (fun x hx => ⟨Real.sqrt_nonneg x, Real.mul_self_sqrt hx⟩) trigSpec_real (by norm_num)).2
 
 end ImathVerif.C12
